@@ -23,12 +23,12 @@ def snap(objs):
 
 
 def run(ctx, rep):
-    N = ctx.n(150, 5000)
+    N = ctx.n(300, 8000)
     creds = [{'roles': s} for s in gen.subsets(ROLES)]
     pend = []
     for case in range(N):
         with_dep = ctx.rng.random() < 0.7
-        regs = [{'name': 'p', 'check_str': ctx.rng.choice(['role:r1', 'role:r0 and role:r1']),
+        regs = [{'name': 'p', 'check_str': ctx.rng.choice(['role:r1', 'role:r0 and role:r1', 'role:r1 or role:r0', 'role:r0 or (role:r1 and role:r0) or role:r1']),
                  'deprecated': ('oldp', 'role:r0') if with_dep else None},
                 {'name': 'q', 'check_str': 'role:r0', 'deprecated': ('q', 'role:r1') if with_dep and ctx.rng.random() < 0.5 else None},
                 {'name': 'd', 'check_str': '@'}]
@@ -42,9 +42,9 @@ def run(ctx, rep):
             loads = [[] for _ in worlds]
             t = 2
             script = []
-            for _ in range(ctx.rng.randint(2, 10)):
+            for _ in range(ctx.rng.randint(2, 12)):
                 i = ctx.rng.randrange(k)
-                op = ctx.rng.choice(['load', 'load', 'force', 'enforce', 'edit', 'edit_dir'])
+                op = ctx.rng.choice(['load', 'load', 'force', 'enforce', 'edit', 'edit_dir', 'edit_dir2'])
                 script.append((i, op))
                 w, e = worlds[i], enfs[i]
                 if op == 'load':
@@ -60,6 +60,9 @@ def run(ctx, rep):
                 elif op == 'edit':
                     t += 1
                     w.write((None, None), ctx.rng.choice(CONTENTS), t)
+                elif op == 'edit_dir2':
+                    t += 1
+                    w.write((1, 'x.yaml'), ctx.rng.choice(CONTENTS), t)
                 else:
                     t += 1
                     w.write((0, 'o.yaml'), ctx.rng.choice(CONTENTS), t)
